@@ -1,6 +1,7 @@
 package main
 
 import (
+	"go/token"
 	"fmt"
 	"go/ast"
 	"go/types"
@@ -154,6 +155,9 @@ func (env *SpecEnv) containerSpec(name string, n *ast.CallExpr) (SV, bool) {
 		return intSV(env.eval(n.Args[0]).(*PtrV).Addr), true
 	case "cls":
 		return intSV(mapKeyClass(env.eval(n.Args[0]))), true
+	case "visited":
+		// visited(k): the running Each has visited key class k
+		return boolSV(sel(e.heapArr(st, keyEachVisited, sortArrIB), scal(env.eval(n.Args[0])), SBool)), true
 	case "msize":
 		return intSV(sel(e.heapArr(st, keyMapSize, sortArrII), env.eval(n.Args[0]).(*PtrV).Addr, SInt)), true
 	}
@@ -175,4 +179,105 @@ func (e *Exec) assumeAllocated(st *BState, t types.Type, sv SV, guard *Term) {
 		}
 		return l
 	})
+}
+
+const keyEachVisited = "G|each|visited"
+
+// eachLoop desugars m.Each(callback) of the zyedidia hash map by its documented protocol: the callback is called
+// once for every stored entry, in an unspecified order. The loop is cut like an Ascend (the contract's `ascend N
+// invariant | step` clauses, numbered together with the function's Ascend calls); instead of an ascending bound the
+// ghost visited(k) says which key classes have been visited; lastkey() is the class being visited. The loop is left
+// when every stored class has been visited — or by a panic of the callback, which becomes a panic point of the
+// enclosing function (the callback must not modify the map: not checked, listed).
+func (e *Exec) eachLoop(fr *Frame, st *BState, x *ssa.Call, args []SV) SV {
+	ascendCount[fr.fn]++
+	ord := ascendCount[fr.fn]
+	cf, mc := traceClosure(x.Call.Args[1])
+	if cf == nil {
+		panic("Each with a callback that is not a function literal")
+	}
+	t := args[0].(*PtrV).Addr
+	aIB, aII := arrSort(SInt, sortArrIB), arrSort(SInt, sortArrII)
+	hasAt := func(s *BState, c *Term) *Term { return sel(sel(e.heapArr(s, keyMapHas, aIB), t, sortArrIB), c, SBool) }
+	valAt := func(s *BState, c *Term) *Term { return sel(sel(e.heapArr(s, keyMapVal, aII), t, sortArrII), c, SInt) }
+	ct := e.contractOf(fr.fn)
+	var invs, steps []Clause
+	if ct != nil {
+		invs = ct.AscendInv[ord]
+		steps = ct.AscendStep[ord]
+	}
+	st.heap[keyEachVisited] = mk(sortArrIB, "((as const "+sortArrIB+") false)")
+	for i, inv := range invs {
+		env := e.specEnv(fr, st, nil)
+		e.obligeNamed(st, fmt.Sprintf("ascend%d.%s.init", ord, clauseLabel(inv, "inv", i)), x.Pos(), scal(env.evalGoal(inv.Expr)))
+	}
+	// havoc what the callback may write
+	e.havocCalleeFrame(st, st.clone(), cf, nil, "each", false)
+	visited := e.fresh("each.visited", sortArrIB)
+	st.heap[keyEachVisited] = visited
+	nbound++
+	k0 := mk(SInt, fmt.Sprintf("k!q%d", nbound))
+	e.assume(implies(st.reach, mk(SBool, "forall", mk("binder", "(("+k0.Op+" Int))"), implies(sel(visited, k0, SBool), hasAt(st, k0)))))
+	for _, inv := range invs {
+		env := e.specEnv(fr, st, nil)
+		e.assume(implies(st.reach, scal(env.eval(inv.Expr))))
+	}
+	head := st.clone()
+	arm := e.fresh("each.arm", SInt)
+	s := head.clone()
+	s.reach = and(head.reach, eq(arm, intLit(0)))
+	cur := e.fresh("each.cur", SInt)
+	e.assume(implies(s.reach, and(hasAt(s, cur), not(sel(visited, cur, SBool)))))
+	s.ghost["$btkey"] = intSV(cur)
+	ghostTypes["$btkey"] = types.Typ[types.Int]
+	key := e.freshSV(cf.Params[0].Type(), "each.key", s.reach, false)
+	e.saneInput(s, cf.Params[0].Type(), key, s.reach)
+	e.assumeAllocated(s, cf.Params[0].Type(), key, s.reach)
+	e.assume(implies(s.reach, eq(mapKeyClass(key), cur)))
+	val := &PtrV{Ty: cf.Params[1].Type(), Addr: valAt(s, cur)}
+	var binds []SV
+	if mc != nil {
+		binds = closures[mc]
+	}
+	e.oldStack = append(e.oldStack, head)
+	_, out := e.runInline(fr, cf, s, []SV{key, val}, binds)
+	e.oldStack = e.oldStack[:len(e.oldStack)-1]
+	fr.panics = append(fr.panics, e.escaped...)
+	e.escaped = nil
+	out.heap[keyEachVisited] = sto(visited, cur, tTrue)
+	for i, sc := range steps {
+		env := e.specEnv(fr, out, nil)
+		env.oldSt = head
+		env.bound["continues"] = boolSV(tTrue)
+		e.obligeNamed(out, fmt.Sprintf("ascend%d.step.%s", ord, strings.TrimPrefix(clauseLabel(sc, "step", i)[len("step"):], ".")), token.NoPos, scal(env.evalGoal(sc.Expr)))
+	}
+	for _, sc := range steps {
+		env := e.specEnv(fr, out, nil)
+		env.oldSt = head
+		env.bound["continues"] = boolSV(tTrue)
+		e.assume(implies(out.reach, scal(env.eval(sc.Expr))))
+	}
+	for i, inv := range invs {
+		env := e.specEnv(fr, out, nil)
+		e.obligeNamed(out, fmt.Sprintf("ascend%d.%s.preserved", ord, clauseLabel(inv, "inv", i)), token.NoPos, scal(env.evalGoal(inv.Expr)))
+	}
+	// exit: every stored class has been visited
+	es := head.clone()
+	es.reach = and(head.reach, eq(arm, intLit(1)))
+	nbound++
+	k3 := mk(SInt, fmt.Sprintf("k!q%d", nbound))
+	e.assume(implies(es.reach, mk(SBool, "forall", mk("binder", "(("+k3.Op+" Int))"), implies(hasAt(es, k3), sel(visited, k3, SBool)))))
+	st.reach, st.cells, st.heap, st.ghost, st.hepoch = es.reach, es.cells, es.heap, es.ghost, es.hepoch
+	e.note("hashmap.Each: every stored entry exactly once, unspecified order (library protocol assumed); the callback does not modify the map")
+	if ct != nil {
+		for i, xc := range ct.AscendExit[ord] {
+			env := e.specEnv(fr, st, nil)
+			e.obligeNamed(st, fmt.Sprintf("ascend%d.exit.%s", ord, strings.TrimPrefix(clauseLabel(xc, "exit", i)[len("exit"):], ".")), x.Pos(), scal(env.evalGoal(xc.Expr)))
+		}
+		for _, xc := range ct.AscendExit[ord] {
+			env := e.specEnv(fr, st, nil)
+			e.assume(implies(st.reach, scal(env.eval(xc.Expr))))
+		}
+	}
+	return &TupleV{}
 }
